@@ -40,6 +40,8 @@ def cases(tier, seed, keras3=False):
   for i in range(n):
     rank = rnd.choice([1, 2, 2, 3, 4, 4])
     shape = [rnd.choice([2, 3, 4, 6]) for _ in range(rank)]
+    if rank >= 2 and rnd.random() < 0.12:
+      shape[-1] = 1      # a single output channel (e.g. the kernel of a one-filter convolution): one scale for everything
     cls = rnd.choice(["quantized_bits", "quantized_bits", "quantized_linear"])
     alpha = rnd.choice(["auto", "auto_po2", "auto_po2"])
     kw = {"bits": rnd.randint(2, 8), "integer": rnd.randint(0, 3), "alpha": alpha}
@@ -268,7 +270,9 @@ def run_case(case, ctx):
   nzm = np.abs(xf[xf != 0])
   no_bounds = kw.get("min_po2_exponent") is None and kw.get("max_po2_exponent") is None
   j = case["j"]
-  if nzm.size and nzm.min() >= 1e-3 and nzm.min() * 2.0 ** j >= 1e-3 and no_bounds and (s > 0).all() \
+  # magnitudes whose squares are far above keras' epsilon (1e-7), which the least-squares iteration adds to its
+  # denominators: at |x| ~ 1e-3 the absolute epsilon makes the fitted scale non-equivariant (false alarm, appendix C)
+  if nzm.size and nzm.min() >= 1e-2 and nzm.min() * 2.0 ** j >= 1e-2 and no_bounds and (s > 0).all() \
       and np.abs(xf).max() * 2.0 ** max(j, 0) < 1e30:
     ok, q3 = ctx.call(base, qenv.build, {"cls": cls, "kw": kw})
     xj = (xf * 2.0 ** j).astype(np.float32)
